@@ -1027,14 +1027,15 @@ def _map_overlap_direct(func, args, depth, boundary, trim, allow_rechunk, kwargs
         if new_axis is not None:
             if isinstance(new_axis, Number):
                 new_axis = [new_axis]
-            ndim_out = max(a.ndim for a in overlapped)
-            new_axis = [d % ndim_out for d in new_axis]
-
+            # ``new_axis`` names positions in the OUTPUT; the kept input axes
+            # fill the remaining positions in order.
+            ndim_out = result.ndim
+            new_axis = sorted({d % ndim_out for d in new_axis})
+            old_axes = [ax for ax in range(ndim_out) if ax not in new_axis]
+            kept = sorted(trim_depth)
+            trim_depth = {out_ax: trim_depth[k] for k, out_ax in zip(kept, old_axes)}
+            trim_boundary = {out_ax: trim_boundary[k] for k, out_ax in zip(kept, old_axes)}
             for axis in new_axis:
-                for existing_axis in list(trim_depth.keys()):
-                    if existing_axis >= axis:
-                        trim_depth[existing_axis + 1] = trim_depth[existing_axis]
-                        trim_boundary[existing_axis + 1] = trim_boundary[existing_axis]
                 trim_depth[axis] = 0
                 trim_boundary[axis] = "none"
 
